@@ -53,6 +53,7 @@ type rfunc struct {
 	env    *renv
 	fenv   *rtable
 	self   bool // method definition: implicit self parameter
+	main   bool
 	id     int
 }
 
@@ -497,6 +498,15 @@ func (r *rlua) call(f rval, args []rval) []rval {
 		var varargs []rval
 		if fn.par.HasVargs && len(args) > len(names) {
 			varargs = args[len(names):]
+		}
+		if fn.par.HasVargs && !fn.main {
+			// LUA_COMPAT_VARARG: the hidden local `arg` holds the extra arguments and their count
+			at := r.newTable()
+			for i, v := range varargs {
+				at.rawset(LNumber(i+1), v)
+			}
+			at.rawset(LString("n"), LNumber(len(varargs)))
+			env.declare("arg", at)
 		}
 		c := r.block(fn.body, env, fn, varargs)
 		switch c.kind {
@@ -1094,6 +1104,6 @@ func (r *rlua) run(chunk []ast.Stmt, args []rval) (results []rval, errv rval, fa
 		}
 	}()
 	r.nextID++
-	main := &rfunc{par: &ast.ParList{HasVargs: true}, body: chunk, fenv: r.globals, id: r.nextID}
+	main := &rfunc{par: &ast.ParList{HasVargs: true}, body: chunk, fenv: r.globals, id: r.nextID, main: true}
 	return r.call(main, args), nil, false
 }
